@@ -340,7 +340,7 @@ func (p *{{$TypeName}}) Write(oprot thrift.TProtocol) (err error) {
 	{{- end}}
 	{{- if eq .Category "union"}}
 	var c int
-	if c = p.CountSetFields{{$TypeName}}(); c != 1 {
+	if c = p.CountSetFields{{$TypeName}}(); c != 1 {{- if Features.KeepUnknownFields}} && !(c == 0 && p != nil && len(p._unknownFields) > 0){{end}} {
 		goto CountSetFieldsError
 	}
 	{{- end}}
